@@ -75,7 +75,7 @@ def main():
     res["what_i_ran"] = ["git apply patch.diff in a scratch worktree of /repo HEAD", "pytest (49 tests) with the patch",
                          "demo.py with and without the patch", "./check <id> --tier quick with VERIF_REPO=<scratch>"]
     json.dump(res, open(os.path.join(dst, "meta.json"), "w"), indent=1)
-    print(json.dumps({k: res[k] for k in ("confirmed", "caught_by", "tests_with_patch")}), res.get("checks"))
+    print(json.dumps({k: res.get(k) for k in ("confirmed", "caught_by", "tests_with_patch", "apply_error")}), res.get("checks"))
 
 
 if __name__ == "__main__":
